@@ -8,16 +8,21 @@ package vatomic
 
 import "verifkit/vsched"
 
-func point() { vsched.Mem("atomic") }
+// point brackets every operation with two scheduling points: one before it (the operation itself is
+// indivisible) and one after it, so that whatever un-instrumented code follows (e.g. publishing the
+// value just obtained to a metrics gauge) is a step of its own and other tasks can run in between.
+func point() func() { vsched.Mem("atomic"); return after }
+
+func after() { vsched.Mem("atomic") }
 
 type Int32 struct{ v int32 }
 
-func (x *Int32) Load() int32        { point(); return x.v }
-func (x *Int32) Store(v int32)      { point(); x.v = v }
-func (x *Int32) Add(d int32) int32  { point(); x.v += d; return x.v }
-func (x *Int32) Swap(v int32) int32 { point(); o := x.v; x.v = v; return o }
+func (x *Int32) Load() int32        { defer point()(); return x.v }
+func (x *Int32) Store(v int32)      { defer point()(); x.v = v }
+func (x *Int32) Add(d int32) int32  { defer point()(); x.v += d; return x.v }
+func (x *Int32) Swap(v int32) int32 { defer point()(); o := x.v; x.v = v; return o }
 func (x *Int32) CompareAndSwap(o, n int32) bool {
-	point()
+	defer point()()
 	if x.v == o {
 		x.v = n
 		return true
@@ -27,12 +32,12 @@ func (x *Int32) CompareAndSwap(o, n int32) bool {
 
 type Int64 struct{ v int64 }
 
-func (x *Int64) Load() int64        { point(); return x.v }
-func (x *Int64) Store(v int64)      { point(); x.v = v }
-func (x *Int64) Add(d int64) int64  { point(); x.v += d; return x.v }
-func (x *Int64) Swap(v int64) int64 { point(); o := x.v; x.v = v; return o }
+func (x *Int64) Load() int64        { defer point()(); return x.v }
+func (x *Int64) Store(v int64)      { defer point()(); x.v = v }
+func (x *Int64) Add(d int64) int64  { defer point()(); x.v += d; return x.v }
+func (x *Int64) Swap(v int64) int64 { defer point()(); o := x.v; x.v = v; return o }
 func (x *Int64) CompareAndSwap(o, n int64) bool {
-	point()
+	defer point()()
 	if x.v == o {
 		x.v = n
 		return true
@@ -42,12 +47,12 @@ func (x *Int64) CompareAndSwap(o, n int64) bool {
 
 type Uint32 struct{ v uint32 }
 
-func (x *Uint32) Load() uint32         { point(); return x.v }
-func (x *Uint32) Store(v uint32)       { point(); x.v = v }
-func (x *Uint32) Add(d uint32) uint32  { point(); x.v += d; return x.v }
-func (x *Uint32) Swap(v uint32) uint32 { point(); o := x.v; x.v = v; return o }
+func (x *Uint32) Load() uint32         { defer point()(); return x.v }
+func (x *Uint32) Store(v uint32)       { defer point()(); x.v = v }
+func (x *Uint32) Add(d uint32) uint32  { defer point()(); x.v += d; return x.v }
+func (x *Uint32) Swap(v uint32) uint32 { defer point()(); o := x.v; x.v = v; return o }
 func (x *Uint32) CompareAndSwap(o, n uint32) bool {
-	point()
+	defer point()()
 	if x.v == o {
 		x.v = n
 		return true
@@ -57,12 +62,12 @@ func (x *Uint32) CompareAndSwap(o, n uint32) bool {
 
 type Uint64 struct{ v uint64 }
 
-func (x *Uint64) Load() uint64         { point(); return x.v }
-func (x *Uint64) Store(v uint64)       { point(); x.v = v }
-func (x *Uint64) Add(d uint64) uint64  { point(); x.v += d; return x.v }
-func (x *Uint64) Swap(v uint64) uint64 { point(); o := x.v; x.v = v; return o }
+func (x *Uint64) Load() uint64         { defer point()(); return x.v }
+func (x *Uint64) Store(v uint64)       { defer point()(); x.v = v }
+func (x *Uint64) Add(d uint64) uint64  { defer point()(); x.v += d; return x.v }
+func (x *Uint64) Swap(v uint64) uint64 { defer point()(); o := x.v; x.v = v; return o }
 func (x *Uint64) CompareAndSwap(o, n uint64) bool {
-	point()
+	defer point()()
 	if x.v == o {
 		x.v = n
 		return true
@@ -72,11 +77,11 @@ func (x *Uint64) CompareAndSwap(o, n uint64) bool {
 
 type Bool struct{ v bool }
 
-func (x *Bool) Load() bool       { point(); return x.v }
-func (x *Bool) Store(v bool)     { point(); x.v = v }
-func (x *Bool) Swap(v bool) bool { point(); o := x.v; x.v = v; return o }
+func (x *Bool) Load() bool       { defer point()(); return x.v }
+func (x *Bool) Store(v bool)     { defer point()(); x.v = v }
+func (x *Bool) Swap(v bool) bool { defer point()(); o := x.v; x.v = v; return o }
 func (x *Bool) CompareAndSwap(o, n bool) bool {
-	point()
+	defer point()()
 	if x.v == o {
 		x.v = n
 		return true
@@ -86,11 +91,11 @@ func (x *Bool) CompareAndSwap(o, n bool) bool {
 
 type Pointer[T any] struct{ p *T }
 
-func (x *Pointer[T]) Load() *T     { point(); return x.p }
-func (x *Pointer[T]) Store(v *T)   { point(); x.p = v }
-func (x *Pointer[T]) Swap(v *T) *T { point(); o := x.p; x.p = v; return o }
+func (x *Pointer[T]) Load() *T     { defer point()(); return x.p }
+func (x *Pointer[T]) Store(v *T)   { defer point()(); x.p = v }
+func (x *Pointer[T]) Swap(v *T) *T { defer point()(); o := x.p; x.p = v; return o }
 func (x *Pointer[T]) CompareAndSwap(o, n *T) bool {
-	point()
+	defer point()()
 	if x.p == o {
 		x.p = n
 		return true
@@ -100,11 +105,11 @@ func (x *Pointer[T]) CompareAndSwap(o, n *T) bool {
 
 type Value struct{ v any }
 
-func (x *Value) Load() any      { point(); return x.v }
-func (x *Value) Store(v any)    { point(); x.v = v }
-func (x *Value) Swap(v any) any { point(); o := x.v; x.v = v; return o }
+func (x *Value) Load() any      { defer point()(); return x.v }
+func (x *Value) Store(v any)    { defer point()(); x.v = v }
+func (x *Value) Swap(v any) any { defer point()(); o := x.v; x.v = v; return o }
 func (x *Value) CompareAndSwap(o, n any) bool {
-	point()
+	defer point()()
 	if x.v == o {
 		x.v = n
 		return true
@@ -112,22 +117,22 @@ func (x *Value) CompareAndSwap(o, n any) bool {
 	return false
 }
 
-func AddInt32(p *int32, d int32) int32     { point(); *p += d; return *p }
-func AddInt64(p *int64, d int64) int64     { point(); *p += d; return *p }
-func AddUint32(p *uint32, d uint32) uint32 { point(); *p += d; return *p }
-func AddUint64(p *uint64, d uint64) uint64 { point(); *p += d; return *p }
-func LoadInt32(p *int32) int32             { point(); return *p }
-func LoadInt64(p *int64) int64             { point(); return *p }
-func LoadUint32(p *uint32) uint32          { point(); return *p }
-func LoadUint64(p *uint64) uint64          { point(); return *p }
-func StoreInt32(p *int32, v int32)         { point(); *p = v }
-func StoreInt64(p *int64, v int64)         { point(); *p = v }
-func StoreUint32(p *uint32, v uint32)      { point(); *p = v }
-func StoreUint64(p *uint64, v uint64)      { point(); *p = v }
-func SwapInt32(p *int32, v int32) int32    { point(); o := *p; *p = v; return o }
-func SwapInt64(p *int64, v int64) int64    { point(); o := *p; *p = v; return o }
+func AddInt32(p *int32, d int32) int32     { defer point()(); *p += d; return *p }
+func AddInt64(p *int64, d int64) int64     { defer point()(); *p += d; return *p }
+func AddUint32(p *uint32, d uint32) uint32 { defer point()(); *p += d; return *p }
+func AddUint64(p *uint64, d uint64) uint64 { defer point()(); *p += d; return *p }
+func LoadInt32(p *int32) int32             { defer point()(); return *p }
+func LoadInt64(p *int64) int64             { defer point()(); return *p }
+func LoadUint32(p *uint32) uint32          { defer point()(); return *p }
+func LoadUint64(p *uint64) uint64          { defer point()(); return *p }
+func StoreInt32(p *int32, v int32)         { defer point()(); *p = v }
+func StoreInt64(p *int64, v int64)         { defer point()(); *p = v }
+func StoreUint32(p *uint32, v uint32)      { defer point()(); *p = v }
+func StoreUint64(p *uint64, v uint64)      { defer point()(); *p = v }
+func SwapInt32(p *int32, v int32) int32    { defer point()(); o := *p; *p = v; return o }
+func SwapInt64(p *int64, v int64) int64    { defer point()(); o := *p; *p = v; return o }
 func CompareAndSwapInt32(p *int32, o, n int32) bool {
-	point()
+	defer point()()
 	if *p == o {
 		*p = n
 		return true
@@ -135,7 +140,7 @@ func CompareAndSwapInt32(p *int32, o, n int32) bool {
 	return false
 }
 func CompareAndSwapInt64(p *int64, o, n int64) bool {
-	point()
+	defer point()()
 	if *p == o {
 		*p = n
 		return true
@@ -143,7 +148,7 @@ func CompareAndSwapInt64(p *int64, o, n int64) bool {
 	return false
 }
 func CompareAndSwapUint32(p *uint32, o, n uint32) bool {
-	point()
+	defer point()()
 	if *p == o {
 		*p = n
 		return true
@@ -151,7 +156,7 @@ func CompareAndSwapUint32(p *uint32, o, n uint32) bool {
 	return false
 }
 func CompareAndSwapUint64(p *uint64, o, n uint64) bool {
-	point()
+	defer point()()
 	if *p == o {
 		*p = n
 		return true
